@@ -129,3 +129,115 @@ Proof.
   { induction p as [|q r IH]; intros i b; simpl; [reflexivity|now rewrite IH]. }
   rewrite !W. reflexivity.
 Qed.
+
+(* =========================================================================================
+   CIRCUIT LEVEL: the law is obtained by EXECUTING the appended instruction list on the state
+   ========================================================================================= *)
+Definition app_q (q : nat) (m : mat2) (s : st2) : st2 :=
+  match q with 0 => app_q0 m s | _ => app_q1 m s end.
+
+(* execute an instruction list on a two-qubit state vector: one-qubit gates act through the gate interpretation `sem`,
+   measurements are recorded as (qubit, clbit) (they are terminal in the lists considered) *)
+Fixpoint exec2 (sem : nat -> gate2) (l : list instr) (s : st2) (meas : list (nat * nat)) : st2 * list (nat * nat) :=
+  match l with
+  | [] => (s, meas)
+  | i :: r =>
+      match iop i, iqs i, ics i with
+      | Gate g, [q], _ => exec2 sem r (app_q q (snd (sem g)) s) meas
+      | Measure, [q], [c] => exec2 sem r s (meas ++ [(q, c)])
+      | _, _, _ => exec2 sem r s meas
+      end
+  end.
+
+(* the register word read from basis state b: bit i = the qubit that was measured into clbit bits[i] *)
+Fixpoint reg_word (bits : list nat) (i : nat) (meas : list (nat * nat)) (b : N) : N :=
+  match bits with
+  | [] => 0%N
+  | c :: r =>
+      N.lor (match find (fun qc => Nat.eqb (snd qc) c) meas with
+             | Some qc => if N.testbit b (N.of_nat (fst qc)) then N.shiftl 1 (N.of_nat i) else 0%N
+             | None => 0%N
+             end) (reg_word r (S i) meas b)
+  end.
+
+Definition law_of_st2 (r : st2) (w : N -> N) : list (N * Q) :=
+  let '(a0, a1, a2, a3) := r in
+  let d := Z.to_pos (st2_norm2 r) in
+  [(w 0%N, Qmake (gi_norm2 a0) d); (w 1%N, Qmake (gi_norm2 a1) d);
+   (w 2%N, Qmake (gi_norm2 a2) d); (w 3%N, Qmake (gi_norm2 a3) d)].
+
+(* Born rule for the state reached by executing the suffix; register = clbits `bits` *)
+Definition law_exec2 (sem : nat -> gate2) (suffix : list instr) (bits : list nat) (s : st2) : list (N * Q) :=
+  let rm := exec2 sem suffix s [] in law_of_st2 (fst rm) (reg_word bits 0 (snd rm)).
+
+Lemma law_of_st2_expect r w f :
+  Qeq (expect (law_of_st2 r w) f)
+      ((gi_norm2 (st2_amp r 0) * f (w 0%N) + gi_norm2 (st2_amp r 1) * f (w 1%N)
+        + gi_norm2 (st2_amp r 2) * f (w 2%N) + gi_norm2 (st2_amp r 3) * f (w 3%N))%Z # Z.to_pos (st2_norm2 r)).
+Proof.
+  unfold law_of_st2. destruct r as [[[a0 a1] a2] a3]. cbn [st2_amp]. apply expect4.
+Qed.
+
+Ltac eval_closed_circ :=
+  repeat match goal with
+         | |- context [sign_product ?a ?b] =>
+             let v := eval vm_compute in (sign_product a b) in change (sign_product a b) with v
+         end;
+  repeat match goal with
+         | |- context [recs_sign ?a] => let v := eval vm_compute in (recs_sign a) in change (recs_sign a) with v
+         | |- context [circ_letters ?a ?b] =>
+             let v := eval vm_compute in (circ_letters a b) in change (circ_letters a b) with v
+         end.
+
+Ltac st2_cbv2 :=
+  cbv [st2_norm2 st2_amp st2_inner_re gi_norm2 app_q app_q0 app_q1 pauli_mat nth
+       gH gSX gId mI mX mY mZ gi0 gi1 gii m00 m01 m10 m11 gi_add gi_mul gi_conj fst snd].
+
+Ltac circ_case sl Hh Hs :=
+  match goal with |- context [select sl ?r] => let v := eval vm_compute in r in change r with v end;
+  unfold select; cbn [length seq filter];
+  repeat match goal with |- context [sl ?k] => destruct (sl k) end;
+  cbn [map nth];
+  unfold law_exec2;
+  cbv [exec2 measurement_suffix suffix_from pauli_indices_or_dummy nonid_positions nonid_from iop iqs ics nth seq length fst snd app Nat.eqb];
+  rewrite ?Hh, ?Hs; rewrite law_of_st2_expect; cbv beta;
+  eval_closed_circ; unfold ev_st2.
+
+Lemma born_circuit_two_qubits sem gh gsx (s : st2) (g locs : list nat) :
+  sem gh = gH -> sem gsx = gSX -> st2_nonzero s -> length g = 2 -> valid_letters g ->
+  locs = [0; 1] \/ locs = [1; 0] ->
+  let idx := nonid_positions g in
+  let bits := seq 0 (length (pauli_indices_or_dummy idx)) in
+  let suffix := measurement_suffix gh gsx g idx locs bits in
+  born_circuit (ev_st2 s) 2 (readout sem (fun _ => gId) suffix) bits (law_exec2 sem suffix bits s).
+Proof.
+  intros Hh Hs NZ L V HL idx bits suffix sel. cbv zeta. unfold st2_nonzero in NZ.
+  subst suffix. rewrite (readout_measurement_suffix sem gh gsx g idx locs bits Hh Hs). subst bits idx.
+  destruct g as [|l0 [|l1 [|x r]]]; try discriminate. clear L.
+  pose proof (V 0) as V0. pose proof (V 1) as V1. cbn [nth] in V0, V1. clear V.
+  destruct l0 as [|[|[|[|l0]]]]; try (exfalso; lia); destruct l1 as [|[|[|[|l1]]]]; try (exfalso; lia); clear V0 V1;
+    destruct HL as [-> | ->].
+  all: match goal with sl : nat -> bool |- _ => circ_case sl Hh Hs end.
+  all: destruct s as [[[[a0 b0] [a1 b1]] [a2 b2]] [a3 b3]];
+       apply Qmake_eq_lift; [ | exact NZ | ]; revert NZ; st2_cbv2; intros NZ; try nia; try ring.
+Qed.
+
+(* hence, at circuit level on two qubits: executing the appended suffix and decoding with the recorded mask gives the
+   expectation value of the member placed through qubit_locations; no physical hypothesis left *)
+Lemma expectation_circuit_two_qubits sem gh gsx (s : st2) (g locs : list nat) :
+  sem gh = gH -> sem gsx = gSX -> st2_nonzero s -> length g = 2 -> valid_letters g ->
+  locs = [0; 1] \/ locs = [1; 0] ->
+  let idx := nonid_positions g in
+  let bits := seq 0 (length (pauli_indices_or_dummy idx)) in
+  let suffix := measurement_suffix gh gsx g idx locs bits in
+  forall m mask, member_of g m -> mask_of m idx = Some mask ->
+    Qeq (expect (law_exec2 sem suffix bits s) (decode mask)) (ev_st2 s (embed_letters 2 locs m)).
+Proof.
+  intros Hh Hs NZ L V HL idx bits suffix m mask HM Hmask.
+  apply (expectation_circuit sem gh gsx (ev_st2 s) 2 g locs bits (law_exec2 sem suffix bits s)); try assumption.
+  - destruct HL as [-> | ->]; repeat constructor; simpl; intuition lia.
+  - destruct HL as [-> | ->]; rewrite L; reflexivity.
+  - apply seq_NoDup.
+  - unfold bits. apply seq_length.
+  - apply born_circuit_two_qubits; assumption.
+Qed.
